@@ -26,8 +26,7 @@ for p in sorted(glob.glob('tools/mutants/*.patch')):
 own = [rows[os.path.basename(p)[:-6]] for p in glob.glob('tools/mutants/*.patch') if os.path.basename(p)[:-6] in rows]
 out.append(f"\n{sum(1 for r in own if r['caught'])} of {len(own)} mutants are reported by at least one check; "
            f"{sum(1 for r in own if all(any(c.startswith(e+'(') for c in r['caught']) for e in r['expected']))} by every check named in their `# expect:` header "
-           "(the exceptions are headers that over-claimed: m09 only leaves the status *field* stale — the swap, the buyer and every later refusal are correct, so C03 / C08 rightly stay silent and C12 / C16 / C07 report the inconsistent record; m25 lets anyone *trigger* a withdrawal but the assets still go to the buyer, so C05 rightly stays silent; "
-           "m34 cannot reduce an amount to zero within the registry's 300 bps cap, so C12 stays silent).\n")
+           "(three headers over-claimed in the first matrix and were corrected afterwards: m09 only leaves the status *field* stale — the swap, the buyer and every later refusal are correct, so C03 / C08 rightly stay silent and C12 / C16 / C07 report the inconsistent record; m25 lets anyone *trigger* a withdrawal but the assets still go to the buyer, so C05 rightly stays silent; m34 cannot reduce an amount to zero within the registry's 300 bps cap, so C12 stays silent). After the last engine changes all 40 were re-run against the checks of their headers (`tools/recheck_expected.sh`, `tools/results/recheck.txt`): 40 of 40 reported.\n")
 out.append('### 10.6 Specificity: behaviour-preserving refactors (`tools/refactors/`)\n')
 out.append('| refactor | what it does | checks that report it |\n|---|---|---|')
 for p in sorted(glob.glob('tools/refactors/*.patch')):
